@@ -6,7 +6,9 @@ Batch!CutoffExact / SameMoleculeOnly on the enumerated lattice and on two/three-
 at separations 8..500; the pair lists (idxi, idxj, mask, pair_molid) of the real Parser are
 compared exactly with the specification's, and one level down the number of two-centre
 integral rows the real calculation builds equals |Pairs|.
-Not decided: additivity of non-interacting fragments (asymptotic numerics)."""
+(a) additivity is monitored: neutral closed-shell fragments placed 8..500 A apart (pairs, a triple, three
+directions, three methods) - interaction energy, force, charge and orbital-energy deviations from the isolated
+fragments must decay at least like the leading multipole between consecutive separations."""
 
 from drivers import batch_driver, mdlib
 from harness import common
@@ -40,6 +42,69 @@ def consumers(rec):
             "rij": int(mol.rij.shape[0]), "finite": bool(torch.isfinite(mol.Etot).all())}
 
 
+SEPS = (8.0, 12.0, 20.0, 40.0, 80.0, 160.0, 320.0, 500.0)
+# Deviation from the isolated fragments at separation R must stay below
+#     max( envelope carried over from every smaller separation R1: dev(R1) * (R1/R)^p ,  cap * (8/R)^p )
+# p: leading multipole (dipole-dipole R^-3 for energies, forces, induced charges; dipole potential R^-2 for orbital
+# energies), minus 0.5 slack in the envelope.  cap: five times the largest deviation seen at 8 A over the fixed fragment
+# set on the unchanged tree (a zero crossing of the interaction at a small separation must not tighten the bound).
+DECAY = {"dE": (3.0, 3.0e-2), "force": (3.0, 1.4e-1), "q": (3.0, 8.0e-3), "e_occ": (2.0, 5.0e-1)}
+
+
+def additivity(case):
+    """Fragments (as one molecule) at growing separation against the isolated fragments."""
+    import torch
+
+    mdlib.use_stub(False)
+    common.quiet_stdio()
+    from drivers import scf_driver
+    from seqm.ElectronicStructure import Electronic_Structure
+    from seqm.Molecule import Molecule
+    from seqm.seqm_functions.constants import Constants
+
+    def calc(names, offs):
+        zs, xs, owner = [], [], []
+        for k, (n, o) in enumerate(zip(names, offs)):
+            z, c, ch, mu = scf_driver.MOLS[n]
+            for i in range(len(z)):
+                zs.append(z[i])
+                xs.append([c[i][d] + o[d] for d in range(3)])
+                owner.append((k, i))
+        order = sorted(range(len(zs)), key=lambda i: -zs[i])          # species sorted descending, as the API requires
+        sp = torch.tensor([[zs[i] for i in order]])
+        xyz = torch.tensor([[xs[i] for i in order]], dtype=torch.float64)
+        p = mdlib.seqm_params(method=case["method"], scf_eps=1e-12, scf_converger=[1], pair_outer_cutoff=case.get("cutoff", 1.0e10))
+        mol = Molecule(Constants(), p, xyz, sp)
+        mol.verbose = False
+        es = Electronic_Structure(p)
+        es(mol)
+        per = {}
+        for pos, i in enumerate(order):
+            per[owner[i]] = ([float(x) for x in mol.force[0, pos]], float(mol.q[0, pos]))
+        nocc = int(mol.nocc[0])
+        return {"E": float(mol.Etot[0]), "per": per, "e_occ": sorted(float(x) for x in mol.e_mo[0, :nocc]), "flag": bool(es.notconverged.any())}
+
+    names = case["frags"]
+    iso = [calc([n], [(0.0, 0.0, 0.0)]) for n in names]
+    u = case["dir"]
+    series = []
+    for R in SEPS:
+        offs = [(0.0, 0.0, 0.0)] + [tuple(R * (k + 1) * u[d] * (1.0 if k % 2 == 0 else -1.0) for d in range(3)) for k in range(len(names) - 1)]
+        if len(names) == 3:
+            offs[2] = (R * u[1], -R * u[0], R * u[2] * 0.5)          # third fragment off the line
+        c = calc(names, offs)
+        dF = dq = 0.0
+        for k, n in enumerate(names):
+            for i in range(len(scf_driver.MOLS[n][0])):
+                f, qq = c["per"][(k, i)]
+                f0, q0 = iso[k]["per"][(0, i)]
+                dF = max(dF, max(abs(a - b) for a, b in zip(f, f0)))
+                dq = max(dq, abs(qq - q0))
+        eo = sorted(x for it in iso for x in it["e_occ"])
+        series.append({"R": R, "dE": abs(c["E"] - sum(it["E"] for it in iso)), "force": dF, "q": dq, "e_occ": max(abs(a - b) for a, b in zip(c["e_occ"], eo)), "flag": c["flag"]})
+    return series
+
+
 def main(tier):
     rep = common.Reporter(PROP, tier)
     scratch = common.scratch_dir("c19")
@@ -66,6 +131,36 @@ def main(tier):
             o = c["result"]
             if not (o["idxi"] == o["w"] == o["rij"] == o["npairs_model"]) or not o["finite"]:
                 rep.violation("consumer_ignores_pair_list", {"batch": {"sp": rec["sp"], "cut2": rec["cut2"], "pos": rec["pos"]}, "observed": o}, finite_cutoff=rec["cut2"] != 0)
+        # (a) additivity: monitored decay of the fragment interaction (energies, forces, charges, orbital energies)
+        dirs = [(0.6, 0.64, 0.48), (1.0, 0.0, 0.0), (0.0, -0.6, 0.8)]
+        acases = []
+        pairs = [["h2o", "h2co"], ["ch4", "ch4"], ["nh3", "hf"]] if tier == "quick" else [["h2o", "h2co"], ["ch4", "ch4"], ["nh3", "hf"], ["h2o", "h2o"], ["hf", "ch4"], ["co2", "nh3"], ["c2h4", "h2o"], ["h2", "hf"]]
+        for fr in pairs:
+            for method in (("AM1",) if tier == "quick" else ("AM1", "PM3", "MNDO")):
+                for u in (dirs[:1] if tier == "quick" else dirs):
+                    acases.append(dict(frags=fr, method=method, dir=u))
+        acases.append(dict(frags=["h2o", "hf", "nh3"], method="PM3", dir=dirs[0]))
+        acases.append(dict(frags=["h2o", "h2co"], method="AM1", dir=dirs[1], cutoff=1000.0))     # finite cutoff beyond every distance: same answer
+        ares = common.run_forked(acases, additivity, timeout=1800)
+        worst = {k: 0.0 for k in DECAY}
+        worst8 = {k: 0.0 for k in DECAY}
+        n_add = 0
+        for c, rr in zip(acases, ares):
+            if not rr.get("ok"):
+                rep.machinery("additivity run failed: " + str(rr.get("error")) + str(rr.get("tb"))[-300:])
+                continue
+            ser = rr["result"]
+            for n, b in enumerate(ser):
+                for name, (expo, cap) in DECAY.items():
+                    n_add += 1
+                    bound = max([cap * (8.0 / b["R"]) ** expo] + [a[name] * (a["R"] / b["R"]) ** (expo - 0.5) for a in ser[:n]])
+                    worst[name] = max(worst[name], b[name] / bound)
+                    worst8[name] = max(worst8[name], ser[0][name])
+                    if b[name] > bound or b["flag"]:
+                        rep.violation("fragment_interaction_does_not_decay", {"case": c, "quantity": name, "R": b["R"], "deviation": b[name], "bound": bound, "series": ser},
+                                      quantity=name, method=c["method"], nfrag=len(c["frags"]), finite_cutoff="cutoff" in c)
+            if ser[0]["dE"] > 0.05 or ser[-1]["dE"] > 1e-6:
+                rep.violation("fragment_interaction_too_large", {"case": c, "series": ser}, quantity="dE", method=c["method"], nfrag=len(c["frags"]), finite_cutoff="cutoff" in c)
         finite = [rec for rec in recs if rec["cut2"] != 0]
         cov = {
             "states": r.distinct + g.distinct,
@@ -73,12 +168,12 @@ def main(tier):
             "traces_validated_against_impl": len(recs),
             "samples": [{"sp": x["sp"], "cut2": x["cut2"], "pos": x["pos"], "idxi": x["idxi"], "idxj": x["idxj"]} for x in frags[:2]] or [{}],
             "batches_compared_exactly": len(recs),
-            "fragment_batches_run": len(frags),
+            "fragment_batches_run": len(frags), "additivity_series": len(acases), "additivity_comparisons": n_add, "calibration_worst_deviation_over_bound": worst, "calibration_largest_deviation_at_8A": worst8,
             "evaluations": len(recs),
             "distinct_nontrivial": len([x for x in finite if len(x["idxi"]) > 0]),
             "rule": "every batch of the enumerated lattice and the fragment family, exported by TLC; non-trivial = finite cutoff and at least one surviving pair",
             "exhaustive": True,
         }
-        return rep.finish(cov, assumptions=["cutoffs never coincide with an occurring distance (the statement leaves the boundary open)", "fragment additivity (asymptotic numerics) is not decided"])
+        return rep.finish(cov, assumptions=["cutoffs never coincide with an occurring distance (the statement leaves the boundary open)", "fragment additivity is a monitored predicate: at every separation 8..500 A the deviation from the isolated fragments must stay below max(envelope of the smaller separations decayed with R^-2.5 / R^-1.5, cap * (8/R)^3 resp. ^2), caps = 5 x the largest deviation at 8 A on the unchanged tree"])
     finally:
         common.rm(scratch)
